@@ -53,13 +53,13 @@ class MSSQLQueryBuilder(QueryBuilder):
         if not self._orderbys:
             order_by = " ORDER BY (SELECT 0)"
         return order_by + " OFFSET {offset} ROWS".format(
-            offset=self._offset.get_sql(ctx) if self._offset is not None else 0
+            offset=self._offset.get_sql(ctx.copy(with_alias=False)) if self._offset is not None else 0
         )
 
     def _limit_sql(self, ctx: SqlContext) -> str:
         if self._limit is None:
             return ""
-        return " FETCH NEXT {limit} ROWS ONLY".format(limit=self._limit.get_sql(ctx))
+        return " FETCH NEXT {limit} ROWS ONLY".format(limit=self._limit.get_sql(ctx.copy(with_alias=False)))
 
     def _apply_pagination(self, querystring: str, ctx: SqlContext) -> str:
         # Note: Overridden as MSSQL specifies offset before the fetch next limit
